@@ -46,6 +46,28 @@ type Solver struct {
 	Errors    []string
 }
 
+// solverArgv: the deciding solver. GOSYM_SOLVER overrides; default is the newer
+// z3 (5.1.0, `z3-new`) when present - it decides the CRC/table heavy queries two
+// orders of magnitude faster than 4.8.12 - else /usr/bin/z3.
+func solverArgv() []string {
+	if s := os.Getenv("GOSYM_SOLVER"); s != "" {
+		return strings.Fields(s)
+	}
+	if p, err := exec.LookPath("z3-new"); err == nil {
+		return []string{p, "-in"}
+	}
+	return []string{"z3", "-in"}
+}
+
+func solverName() string {
+	a := solverArgv()
+	out, err := exec.Command(a[0], "--version").Output()
+	if err != nil {
+		return a[0]
+	}
+	return strings.TrimSpace(string(out)) + " (" + a[0] + ")"
+}
+
 func NewSolver(argv []string, timeoutMs int) (*Solver, error) {
 	s := &Solver{argv: argv, timeoutMs: timeoutMs}
 	if err := s.start(); err != nil {
@@ -225,6 +247,30 @@ func (s *Solver) ensureTables() {
 			mid := lo + (1 << uint(bit))
 			return fmt.Sprintf("(ite (= ((_ extract %d %d) i) #b1) %s %s)", bit, bit, build(mid, hi, bit-1), build(lo, mid, bit-1))
 		}
+		// GF(2)-linear tables (CRC tables: T[0]=0, T[a^b]=T[a]^T[b], checked here on the concrete
+		// contents) are the XOR of the entries of the set index bits: far easier to bit-blast
+		linear := len(tb.vals) == 1<<nb && tb.vals[0] == 0
+		for i := 0; linear && i < len(tb.vals); i++ {
+			var x uint64
+			for b := 0; b < int(nb); b++ {
+				if i>>uint(b)&1 == 1 {
+					x ^= tb.vals[1<<uint(b)]
+				}
+			}
+			if x != tb.vals[i] {
+				linear = false
+			}
+		}
+		if linear {
+			var sb strings.Builder
+			sb.WriteString("(bvxor")
+			for b := 0; b < int(nb); b++ {
+				fmt.Fprintf(&sb, " (ite (= ((_ extract %d %d) i) #b1) %s %s)", b, b, constStr(tb.w, tb.vals[1<<uint(b)]), constStr(tb.w, 0))
+			}
+			sb.WriteString(")")
+			s.send(fmt.Sprintf("(define-fun tbl%d ((i (_ BitVec %d))) (_ BitVec %d) %s)", id, tb.iw, tb.w, sb.String()))
+			continue
+		}
 		s.send(fmt.Sprintf("(define-fun tbl%d ((i (_ BitVec %d))) (_ BitVec %d) %s)", id, tb.iw, tb.w, build(0, 1<<nb, int(nb)-1)))
 	}
 	s.nTables = nt
@@ -268,7 +314,24 @@ func (s *Solver) Sync(pc []*Term) {
 
 // Check decides sat(pc ∧ extra). vars lists the variables whose model
 // values are wanted when sat.
+// Check decides sat(pc ∧ extra); an unknown/timeout answer is retried once in a
+// fresh solver process with three times the time limit before it is reported.
 func (s *Solver) Check(pc []*Term, extra *Term, vars []*Term) (SatResult, Model) {
+	r, m := s.check1(pc, extra, vars)
+	if r != Unknown {
+		return r, m
+	}
+	s.NUnknown--
+	old := s.timeoutMs
+	s.timeoutMs = old * 3
+	s.restart()
+	r, m = s.check1(pc, extra, vars)
+	s.timeoutMs = old
+	s.send(fmt.Sprintf("(set-option :timeout %d)", old))
+	return r, m
+}
+
+func (s *Solver) check1(pc []*Term, extra *Term, vars []*Term) (SatResult, Model) {
 	start := time.Now()
 	defer func() { s.SolverSec += time.Since(start).Seconds() }()
 	s.Queries++
